@@ -330,14 +330,18 @@ _C19_DAEMON = dict(
                    "= ok: no u32 overflow, gap <= 3 600 000 ms), due_time_bounded (no u64 overflow below 2^63), and the chain: "
                    "browse_schedule_starts, browse_schedule_step, browse_schedule_chain (from query number k sent at t, after ANY "
                    "history without browse/stop of the type the schedule is at number k+n sent at t' >= t + 1000 * (delay k + ... "
-                   "+ delay (k+n-1))).",
+                   "+ delay (k+n-1))). The same chain for hostname searches, up to the deadline: resolve_schedule_starts, "
+                   "resolve_schedule_step, resolve_schedule_chain, resolve_schedule_from_call (after ANY history that neither "
+                   "searches nor stops the name the schedule got as far as query number k+n at t' >= t + 1000 * (delay k + ... + "
+                   "delay (k+n-1)) and is either still running there, or over - and then only because the next query would not "
+                   "have come before the deadline or an iteration came at / after the deadline), resolve_schedule_stays_over.",
         level_note="Trusted: Lean kernel; axioms propext/Classical.choice/Quot.sound; hand model tied to the code by differential "
                    "comparison of whole histories; simulation seams bypass poll/recv/send/if_addrs/fastrand/system time; "
                    "histories here have no responders (empty cache) - queries caused by cache refresh, follow-ups, new "
                    "interfaces and verify are covered by other properties' checks.",
-        partial=["the chain theorem over whole histories (browse_schedule_chain) is proved for browses; for hostname searches "
-                 "(where the deadline can cut the schedule) the step contracts resolve_rerun_doubles / C17.resolve_first_rerun / "
-                 "resolve_rerun_open plus one_schedule_client"],
+        partial=["the chain theorems (browse_schedule_chain, resolve_schedule_chain) bound the gaps from below for ANY scheduler; "
+                 "that each query of the schedule goes out AT its due time needs a timely scheduler (C12 wake_never_late on the "
+                 "client model: the due time is a timer) and is not stated as one theorem"],
         assumptions=["event receivers stay alive (a dropped receiver ends the search early: not generated here)",
                      "one `now` per loop iteration"],
 )
